@@ -36,6 +36,7 @@ import struct
 from typing import Any, Dict, List, Optional, Sequence, Tuple
 
 from . import common as C
+from . import priv as PV          # private state of Client objects, found on the object (not by name)
 
 ALLT = 2147483647
 ACK = 2
@@ -242,15 +243,14 @@ def run_case(cid: str, case: Dict[str, Any]) -> List[str]:
     sock = FakeSock(data, case["end"], case.get("cuts", ()))
     c = PC.Client(timecode=tc)
     try:
-        c._sock.close()
+        PV.get_sock(c).close()
     except Exception:
         pass
-    c._sock = sock
-    c._connected = True
+    PV.set_sock(c, sock)
+    PV.set_connected(c, True)
     sub_all, subs = case["sub"]
-    c._sub_all = bool(sub_all)
-    c._subscribed_types = set(subs)
-    hsize = c._header_cls().size
+    PV.set_subscription_state(c, sub_all, subs)
+    hsize = c.header_cls().size
     lines = [f"CASE {cid} {hsize} {E['cd'].MT_ACKNOWLEDGE}"]
     types = set()
     for h, _ in frames:
@@ -273,8 +273,7 @@ def run_case(cid: str, case: Dict[str, Any]) -> List[str]:
             _, a, ts = call
             lines.append("CALL sub %d %s" % (int(bool(a)), " ".join(map(str, ts))))
             if not stop:
-                c._sub_all = bool(a)
-                c._subscribed_types = set(ts)
+                PV.set_subscription_state(c, a, ts)
             continue
         _, tmo, ack, sync = call
         lines.append(f"CALL read {tmo} {int(ack)} {int(sync)}")
@@ -312,7 +311,7 @@ def run_case(cid: str, case: Dict[str, Any]) -> List[str]:
         obs[i] = " ".join(t[:3]) + f" msg {hexs(mask(bytes(m.header)))} {hexs(bytes(m.data))}"
     lines += obs
     lines.append("END")
-    c._connected = False       # keep __del__ from "disconnecting" (it sleeps 100 ms)
+    PV.set_connected(c, False)       # keep __del__ from "disconnecting" (it sleeps 100 ms)
     return lines
 
 
@@ -474,10 +473,10 @@ def tcp_smoke(cases: List[Dict[str, Any]]) -> List[Dict[str, Any]]:
         peer.close()
         _time.sleep(0.02)
         c = PC.Client(timecode=bool(case.get("timecode")))
-        c._sock.close()
-        c._sock = cli
-        c._connected = True
-        c._sub_all, c._subscribed_types = bool(case["sub"][0]), set(case["sub"][1])
+        PV.get_sock(c).close()
+        PV.set_sock(c, cli)
+        PV.set_connected(c, True)
+        PV.set_subscription_state(c, case["sub"][0], case["sub"][1])
         saved = PC.select
         PC.select = real_select
         from .rebind import rebind
@@ -504,7 +503,7 @@ def tcp_smoke(cases: List[Dict[str, Any]]) -> List[Dict[str, Any]]:
         finally:
             PC.select = saved
             rebind(PC, {"select": saved})
-            c._connected = False
+            PV.set_connected(c, False)
             cli.close()
         fk = [[f[2], int(f[1])] for f in fake]
         if case["end"] == "fin":
@@ -570,7 +569,7 @@ def run_life_case(cid: str, case: Dict[str, Any]) -> List[str]:
         c.logger.enable_console = False
     except Exception:  # noqa: BLE001
         pass
-    hsize = c._header_cls().size
+    hsize = c.header_cls().size
     lines = [f"LCASE {cid} {hsize} {E['cd'].MT_ACKNOWLEDGE}"]
     types = set()
     for call in case["calls"]:
@@ -654,8 +653,7 @@ def run_life_case(cid: str, case: Dict[str, Any]) -> List[str]:
             if stop:
                 continue
             if c.connected:             # the subscription API needs a connection
-                c._sub_all = bool(a)
-                c._subscribed_types = set(ts)
+                PV.set_subscription_state(c, a, ts)
             lines.append("UOBS")
         elif kind == "disconnect":
             lines.append("CALL disconnect")
@@ -682,7 +680,7 @@ def run_life_case(cid: str, case: Dict[str, Any]) -> List[str]:
         else:
             raise C.MachineryError(f"unknown life call {kind}")
     lines.append("END")
-    c._connected = False
+    PV.set_connected(c, False)
     return lines
 
 
